@@ -120,7 +120,13 @@ func BuildTables(c *Case) []byte {
 		}
 		nt := info.Windows["en-US"]
 		if nt == nil {
-			vio.Fatal("base font has no en-US name table")
+			// the library did not hand the names of the base font back: this phase goes on with a table of its own
+			// (the loss itself is seen by the configuration cover, which compares the names of every cycle)
+			nt = &name.Table{}
+			if info.Windows == nil {
+				info.Windows = name.Tables{}
+			}
+			info.Windows["en-US"] = nt
 		}
 		nt.Family = families[t.Fam]
 		nt.Subfamily = t.Sub
